@@ -85,6 +85,9 @@ void Interpreter::pop_scope() {
                   "[SCOPE] pop_scope: destructor_stacks_ size before: %zu");
     }
 
+    // defers of this scope run before its destructors (as on the return path)
+    pop_defer_scope();
+
     // v0.10.0: デストラクタをLIFO順で呼び出す（最後に作成された変数から破棄）
     if (!destructor_stacks_.empty()) {
         if (!is_calling_destructor_) {
@@ -149,8 +152,6 @@ void Interpreter::pop_scope() {
         }
     }
 
-    // deferを実行
-    pop_defer_scope();
 
     // 配列参照のコピーバック処理
     // 関数終了時に、参照変数のデータベクトルを元の配列にコピーバック
@@ -237,6 +238,9 @@ void Interpreter::pop_destructor_scope() {
                   "before: %zu");
     }
 
+    // defers of this scope run before its destructors (as on the return path)
+    pop_defer_scope();
+
     // デストラクタをLIFO順で呼び出す（最後に作成された変数から破棄）
     if (!destructor_stacks_.empty()) {
         if (!is_calling_destructor_) {
@@ -287,8 +291,6 @@ void Interpreter::pop_destructor_scope() {
         }
     }
 
-    // deferを実行
-    pop_defer_scope();
 
     // 変数スコープはpopしない（variable_manager_->pop_scope()を呼ばない）
 }
